@@ -24,7 +24,7 @@ open OasisModel SharePool
 inductive LErr where
   | forbidden | invalidArgument | insufficientBalance | balanceTooLow | underMinTransfer
   | underMinDelegation | invalidNonce | tooManyAllowances | allowanceGtSupply | badAccount
-  | fatal
+  | outOfGas | fatal
   deriving DecidableEq, Repr, Inhabited
 
 def LErr.toString : LErr → String
@@ -32,7 +32,8 @@ def LErr.toString : LErr → String
   | .insufficientBalance => "insufficient-balance" | .balanceTooLow => "balance-too-low"
   | .underMinTransfer => "under-min-transfer" | .underMinDelegation => "under-min-delegation"
   | .invalidNonce => "invalid-nonce" | .tooManyAllowances => "too-many-allowances"
-  | .allowanceGtSupply => "allowance-gt-supply" | .badAccount => "bad-account" | .fatal => "fatal"
+  | .allowanceGtSupply => "allowance-gt-supply" | .badAccount => "bad-account"
+  | .outOfGas => "out-of-gas" | .fatal => "fatal"
 
 def LErr.ofQ : QErr → LErr
   | .insufficientBalance => .insufficientBalance
@@ -62,6 +63,8 @@ structure Params where
   reserved : List Nat := []                    -- account numbers of reserved addresses (incl. burn)
   pkOrder : List Nat := []                     -- entity account numbers in public-key order
   validators : List Nat := []                  -- validator number ↦ entity account number
+  gasPerByte : Nat := 0                        -- consensus `GasOpTxByte` cost (charged by the mux)
+  gasCostOp : Nat := 0                         -- staking `GasCosts` of a transaction's operation
   deriving Repr
 
 /-- `RewardAmountDenominator` (go/staking/api/rewards.go). -/
@@ -254,14 +257,35 @@ def execBody (l : Ledger) (signer : Nat) : TxBody → Except LErr Ledger
   | .allow b neg ch => allow l signer b neg ch
   | .withdraw src amount => withdraw l signer src amount
 
-/-- One transaction as the mux processes it in DeliverTx: authenticate and pay the fee, then the
-body.  Returns the persisted ledger and the error, if any: a failing fee payment persists nothing,
-a failing body persists the fee payment and the nonce. -/
-def applyTx (l : Ledger) (signer nonce fee : Nat) (body : TxBody) : Ledger × Option LErr :=
+/-- Gas limit of the transaction's fee (`fee.Gas`) and its encoded size. -/
+structure TxGas where
+  limit : Nat := 0
+  size : Nat := 0
+  deriving Repr
+
+/-- Gas accounting around the body: the mux charges per transaction byte, each handler charges its
+operation first thing (after the zero-shares check in `reclaimEscrow`); running out of gas fails the
+transaction like any other error — fee and nonce stay. -/
+def execBodyGas (l : Ledger) (signer : Nat) (g : TxGas) (body : TxBody) : Except LErr Ledger :=
+  let used := g.size * l.params.gasPerByte
+  if g.limit < used then .error .outOfGas
+  else
+    match body with
+    | .reclaimEscrow _ sh =>
+      if sh = 0 then .error .invalidArgument
+      else if g.limit < used + l.params.gasCostOp then .error .outOfGas
+      else execBody l signer body
+    | _ =>
+      if g.limit < used + l.params.gasCostOp then .error .outOfGas else execBody l signer body
+
+/-- One transaction as the mux processes it in DeliverTx: authenticate and pay the fee, charge gas,
+then the body.  Returns the persisted ledger and the error, if any: a failing fee payment persists
+nothing, a failing body (or running out of gas) persists the fee payment and the nonce. -/
+def applyTx (l : Ledger) (signer nonce fee : Nat) (g : TxGas) (body : TxBody) : Ledger × Option LErr :=
   match payFee l signer nonce fee with
   | .error e => (l, some e)
   | .ok l1 =>
-    match execBody l1 signer body with
+    match execBodyGas l1 signer g body with
     | .error e => (l1, some e)
     | .ok l2 => (l2, none)
 
@@ -349,6 +373,8 @@ def rewardAccount (l : Ledger) (a q : Nat) : Except LErr Ledger :=
     match computeCommission rate q with
     | .error _ => .error .fatal
     | .ok (com, rest) =>
+      -- `quantity.Move(&ent.Escrow.Active.Balance, commonPool, q)`
+      if l.common < rest then .error .fatal else
       let pool1 : SharePool := { ac.active with balance := ac.active.balance + rest }
       let common1 := l.common - rest
       if com = 0 then
@@ -597,7 +623,7 @@ def genesis (l : Ledger) : Except LErr Ledger :=
 /-- What can happen between BeginBlock and EndBlock: transactions, and the state movers other
 applications call (roothash slashing and rewards, scheduler rewards, governance deposits). -/
 inductive Op where
-  | tx (signer nonce fee : Nat) (body : TxBody)
+  | tx (signer nonce fee : Nat) (gas : TxGas) (body : TxBody)
   | slash (a amount : Nat)
   | transferFromCommon (dst amount : Nat) (escrow : Bool)
   | addRewards (epoch factor : Nat) (addrs : List Nat)
@@ -613,7 +639,7 @@ def keep (l : Ledger) : Except LErr Ledger → Ledger
 /-- Persisted ledger after one operation; an operation that fails leaves the ledger unchanged
 (a transaction: apart from fee and nonce). -/
 def applyOp (l : Ledger) : Op → Ledger
-  | .tx s n f b => (applyTx l s n f b).1
+  | .tx s n f g b => (applyTx l s n f g b).1
   | .slash a amt => keep l (slashEscrowL l a amt)
   | .transferFromCommon d amt e => keep l (transferFromCommon l d amt e)
   | .addRewards ep f as => keep l (addRewards l ep f as)
